@@ -30,50 +30,16 @@ theorem wfRows_of_check (rows : List Row) (h : wfRowsB rows = true) : WfRows row
     have := h5 _ hf
     simpa using this
 
-def noDoubleGapB : List Row → Bool
-  | .gap _ :: .gap g :: r => false && noDoubleGapB (.gap g :: r)
-  | _ :: r => noDoubleGapB r
-  | [] => true
-
-theorem noDoubleGap_of_check (rows : List Row) (h : noDoubleGapB rows = true) : NoDoubleGap rows := by
-  intro i
-  induction rows generalizing i with
-  | nil => intro g g' h1; simp at h1
-  | cons a r ih =>
-    intro g g' h1 h2
-    cases i with
-    | zero =>
-      simp only [List.getElem?_cons_zero, Option.some.injEq] at h1
-      subst h1
-      cases r with
-      | nil => simp at h2
-      | cons b r' =>
-        simp only [Nat.zero_add, List.getElem?_cons_succ, List.getElem?_cons_zero, Option.some.injEq] at h2
-        subst h2
-        simp [noDoubleGapB] at h
-    | succ i =>
-      have hr : noDoubleGapB r = true := by
-        cases a with
-        | frag f => simpa [noDoubleGapB] using h
-        | gap ga =>
-          cases r with
-          | nil => rfl
-          | cons b r' =>
-            cases b with
-            | frag f => simpa [noDoubleGapB] using h
-            | gap gb => simp [noDoubleGapB] at h
-      exact ih hr i g g' (by simpa using h1) (by simpa using h2)
-
 def absentOkB (sc : Scaffold) : Bool :=
-  !sc.rows.isEmpty && isFragRow sc.rows.head? && isFragRow sc.rows.getLast? && noDoubleGapB sc.rows &&
+  !sc.rows.isEmpty && isFragRow sc.rows.head? && isFragRow sc.rows.getLast? &&
   decide (sc.fragmentTags = []) &&
   (match sc.rows.head? with | some (.frag f) => decide (hapPrefixOfName f.name = none) | _ => true)
 
 theorem absentOk_of_check (sc : Scaffold) (h : absentOkB sc = true) : AbsentOk sc := by
   unfold absentOkB at h
   simp only [Bool.and_eq_true, Bool.not_eq_true', decide_eq_true_eq] at h
-  obtain ⟨⟨⟨⟨⟨h1, h2⟩, h3⟩, h4⟩, h5⟩, h6⟩ := h
-  refine ⟨?_, (isFragRow_iff _).1 h2, (isFragRow_iff _).1 h3, noDoubleGap_of_check _ h4, h5, ?_⟩
+  obtain ⟨⟨⟨⟨h1, h2⟩, h3⟩, h5⟩, h6⟩ := h
+  refine ⟨?_, (isFragRow_iff _).1 h2, (isFragRow_iff _).1 h3, h5, ?_⟩
   · intro e; rw [e] at h1; simp at h1
   · intro f hf
     rw [hf] at h6
